@@ -9,8 +9,17 @@ CHECKER = 'coqc props/C09.v (proofs/ParserUbxP.v, ParserNmeaP.v) + chunking/rest
 def nmea_stream(rng):
     parts = []
     for _ in range(rng.randrange(1, 5)):
-        k = rng.choice(['good', 'bad', 'nochk', 'junk', 'ubx', 'lower'])
+        k = rng.choice(['good', 'bad', 'nochk', 'junk', 'ubx', 'lower', 'good', 'hibit', 'long'])
         body = bytes(rng.choice(b'GPRMC,0123456789.ANE') for _ in range(rng.randrange(1, 25)))
+        if k == 'hibit':
+            # bytes >= 0x80 inside the sentence (valid UTF-8 sequences and lone bytes), checksum over all bytes
+            ins = rng.choice([b'\xc3\xa9', b'\xe2\x82\xac', b'\x80', b'\xb5', b'\xff\xfe', b'\xf0\x9f\x98\x80'])
+            pos = rng.randrange(len(body) + 1)
+            body = body[:pos] + ins + body[pos:]
+            k = 'good'
+        if k == 'long':
+            body = bytes(rng.choice(b'GPGSV,0123456789.ANE') for _ in range(rng.choice([70, 76, 77, 78, 82, 83, 120, 300])))
+            k = 'good'
         if k == 'good':
             parts.append(G.nmea(body))
         elif k == 'lower':
